@@ -6,6 +6,12 @@
 (*   Ident(a, b, same)      two class objects were requested for the       *)
 (*                          pattern lists a and b; `same` = they are the   *)
 (*                          same Python object                             *)
+(*   Canon(a, b, eq, heq)   two bases OF THE SAME KIND were built from the *)
+(*                          pattern lists a and b (any container, order,   *)
+(*                          repetition); eq / heq = the objects are == /   *)
+(*                          have equal hashes: canonical means == exactly  *)
+(*                          when the minimal sets coincide                 *)
+(*   Class(elems, n, count) Av(elems).count(n)                             *)
 (***************************************************************************)
 EXTENDS Mesh, Json, IOUtils
 Trace == JsonDeserialize(IOEnv.TRACE_FILE)
@@ -22,6 +28,11 @@ TBuild == /\ Ev.op = "Build"
                     THEN bad ELSE Flag("ResultIsMinimal")
 TIdent == /\ Ev.op = "Ident"
           /\ bad' = IF Ev.same = (Minimal(AsMeshSet(Ev.a)) = Minimal(AsMeshSet(Ev.b))) THEN bad ELSE Flag("EqualBasesSameObject")
-TNext == l <= Len(Trace) /\ l' = l + 1 /\ (TBuild \/ TIdent)
+TCanon == /\ Ev.op = "Canon"
+          /\ LET same == Minimal(AsMeshSet(Ev.a)) = Minimal(AsMeshSet(Ev.b)) IN
+             bad' = IF Ev.eq = same /\ (same => Ev.heq) THEN bad ELSE Flag("OrderIndependent")
+TClass == /\ Ev.op = "Class"
+          /\ bad' = IF Ev.count = Cardinality(MAvLevel(AsMeshSet(Ev.elems), Ev.n)) THEN bad ELSE Flag("SameClass")
+TNext == l <= Len(Trace) /\ l' = l + 1 /\ (TBuild \/ TIdent \/ TCanon \/ TClass)
 TraceDone == l = Len(Trace) + 1 => PrintT(ToJson([verdict |-> bad, drift |-> <<>>, n |-> Len(Trace)]))
 =============================================================================
